@@ -69,10 +69,21 @@ M = [
     # ---- C15 / C16
     ("C15-order-returns-package-slice", ["C15"], "group.go",
      "func Order() []byte {", "var orderBytes = orderFresh()\n\n// Order returns the order of the canonical group of scalars.\nfunc Order() []byte { return orderBytes }\n\nfunc orderFresh() []byte {"),
+    ("C16-global-temp-in-subtract", ["C16", "C10"], "element.go",
+     "\tq := element.copy().negate()\n", "\tq := subTmp.set(element).negate()\n"),
+    ("C16-global-scratch-hash", ["C16"], "xmd.go",
+     "\th := crypto.SHA256.New()\n", "\tif scratchHash == nil {\n\t\tscratchHash = crypto.SHA256.New()\n\t}\n\n\th := scratchHash\n"),
     # ---- C10
     ("C10-copy-returns-receiver", ["C10"], "element.go", "func (e *Element) Copy() *Element {\n\treturn e.copy()", "func (e *Element) Copy() *Element {\n\treturn e"),
     ("C10-newelement-shares-identity", ["C10", "C16"], "element.go", "func newElement() *Element {\n\treturn newEmptyElement().set(&identity)", "func newElement() *Element {\n\treturn &identity"),
 ]
+
+
+# additional edits in the same file (two cooperating sites)
+EXTRA = {
+    "C16-global-temp-in-subtract": [("var identity = Element{", "var subTmp Element\n\nvar identity = Element{")],
+    "C16-global-scratch-hash": [("var errZeroLenDST = ", "var scratchHash hash.Hash\n\nvar errZeroLenDST = ")],
+}
 
 
 def main():
@@ -84,6 +95,10 @@ def main():
             print("SKIP %s: pattern occurs %d times in %s" % (name, src.count(old), path), file=sys.stderr)
             continue
         dst = src.replace(old, new)
+        for old2, new2 in EXTRA.get(name, []):
+            if dst.count(old2) != 1:
+                print("SKIP %s: extra pattern occurs %d times" % (name, dst.count(old2)), file=sys.stderr)
+            dst = dst.replace(old2, new2)
         diff = "".join(difflib.unified_diff(src.splitlines(True), dst.splitlines(True), "a/" + path, "b/" + path))
         open(os.path.join(OUT, name + ".patch"), "w").write(diff)
         meta[name] = props
